@@ -3,7 +3,6 @@ package synth
 import (
 	"fmt"
 	"math/rand"
-	"sort"
 	"strings"
 )
 
@@ -1238,18 +1237,25 @@ func (g *gen) genMethod(c *Controller, idx int) Method {
 	}
 	// shuffle parameter order (signature order is what counts)
 	g.r.Shuffle(len(m.Params), func(i, j int) { m.Params[i], m.Params[j] = m.Params[j], m.Params[i] })
-	if prof.GroupedParams && len(m.Params) >= 3 && g.chance(0.35) {
-		// bring same-typed parameters together and declare them as grouped fields
-		sort.SliceStable(m.Params, func(i, j int) bool {
-			return m.Params[i].Type.GoExpr(c.Pkg, func(k string) string { return k }) < m.Params[j].Type.GoExpr(c.Pkg, func(k string) string { return k })
-		})
-		if g.chance(0.5) && len(m.Params) > 3 {
-			// keep one differently typed parameter after the group
-			last := len(m.Params) - 1
-			m.Params[0], m.Params[last] = m.Params[last], m.Params[0]
+	if prof.GroupedParams && g.chance(0.3) {
+		// one grouped field of three names (ga, gb, gc string) in front, every other parameter after it
+		// as its own field: the position of a name inside a grouped field and the position of a field
+		// in the list must not be confused
+		var grp []Param
+		for _, n := range []string{"ga", "gb", "gc"} {
+			if !usedNames[n] && allow["query"] {
+				usedNames[n] = true
+				grp = append(grp, Param{GoName: n, In: "query", Type: Prim("string")})
+			}
 		}
-		m.GroupParams = true
-		g.p.SetFeature("grouped-parameter-fields")
+		if len(grp) == 3 {
+			if len(m.Params) == 0 || g.chance(0.5) {
+				m.Params = append(m.Params, Param{GoName: "gd", In: "query", Type: Prim(g.pick([]string{"string", "int"}))})
+			}
+			m.Params = append(grp, m.Params...)
+			m.GroupParams = true
+			g.p.SetFeature("grouped-parameter-fields")
+		}
 	}
 	m.Ret = g.retType()
 	if prof.CustomErrors && g.chance(0.25) {
